@@ -55,6 +55,7 @@ func TestVerifC03Sched(t *testing.T) {
 		}
 		env := c03Setup(base, c03Seq, poison)
 		f := &file{}
+		env.files = []*file{f}
 		defer env.teardown(f)
 		now := time.Date(2024, 3, 4, 12, 0, 0, 0, time.UTC)
 		CounterTime = func() time.Time { return now }
@@ -87,7 +88,7 @@ func TestVerifC03Sched(t *testing.T) {
 		for i := range progs {
 			nops := rapid.IntRange(1, 8).Draw(t, "nops")
 			for j := 0; j < nops; j++ {
-				op := c03Op{kind: rapid.SampledFrom([]string{"add", "add", "add", "add", "add", "open", "rotate", "read"}).Draw(t, "op")}
+				op := c03Op{kind: rapid.SampledFrom([]string{"add", "add", "add", "add", "add", "open", "rotate", "read", "stack"}).Draw(t, "op")}
 				op.name = rapid.IntRange(0, nnames-1).Draw(t, "name")
 				op.obj = rapid.SampledFrom([]int{0, 0, 0, 1}).Draw(t, "obj")
 				op.n = rapid.OneOf(rapid.Int64Range(1, 100), rapid.Int64Range(1, 100), rapid.SampledFrom([]int64{1 << 32, 1<<33 - 2, 1<<33 - 1, 1 << 33, 1 << 62, 1<<63 - 1})).Draw(t, "n")
@@ -106,15 +107,21 @@ func TestVerifC03Sched(t *testing.T) {
 				counterOf(op.name, op.obj) // create the objects up front (no allocation races in the harness)
 			}
 		}
+		// a stack counter shared by all threads (its Inc takes a mutex, then goes through Counter.Add)
+		sc := &StackCounter{name: "stk", depth: 3, file: f}
+		var stackBegun uint64
 		ctl := vhook.New()
 		ctl.TickBudget = 5_000_000
+		curCounter := map[int]*Counter{} // the counter each thread is currently adding to
 		for i := range progs {
 			prog := progs[i]
+			tid := i
 			ctl.Go(fmt.Sprintf("g%d", i), func() {
 				for _, op := range prog {
 					switch op.kind {
 					case "add":
 						c := counterOf(op.name, op.obj)
+						curCounter[tid] = c
 						if begun[op.name]+uint64(op.n) < begun[op.name] {
 							begun[op.name] = ^uint64(0)
 						} else {
@@ -136,6 +143,9 @@ func TestVerifC03Sched(t *testing.T) {
 						f.rotate1()
 					case "read":
 						Read(counterOf(op.name, 0))
+					case "stack":
+						stackBegun++
+						sc.Inc()
 					}
 				}
 			})
@@ -168,6 +178,16 @@ func TestVerifC03Sched(t *testing.T) {
 							knownHit = true
 							return
 						}
+					} else if cur := curCounter[th.ID]; cur != nil && !env.closedEntry(th.FaultAddr).reg[cur] {
+						// second listed finding: the counter was not yet on the file's list when the mapping
+						// was closed (another goroutine was still registering it), so it was never invalidated
+						// and kept a pointer into the closed mapping
+						sig := "use-after-unmap-unregistered"
+						if vstats.Known(sig) {
+							knownHit = true
+							return
+						}
+						t.Fatalf("memory fault: thread %s used a pointer into a mapping closed at step %d; its counter was not on the file's list then (registration still in progress) and was never invalidated\n%s", th.Name, closed, th.Stack)
 					} else {
 						t.Fatalf("memory fault: thread %s accessed %#x in a mapping that had been closed (step %d) before the thread's last update of the counter state (step %d): it kept using a stale pointer after an invalidation it could see\n%s",
 							th.Name, th.FaultAddr, closed, lastStateOp[th.ID], th.Stack)
@@ -251,6 +271,21 @@ func TestVerifC03Sched(t *testing.T) {
 				t.Fatalf("quiescence: counter %q persisted %d + pending %d exceeds the %d begun", shortName(name), p[name], extra, begun[i])
 			}
 		}
+		// the stack counter: all increments came from one call site, so one counter, counted exactly once
+		var stackTotal uint64
+		for _, c := range sc.Counters() {
+			e := c.state.load().extra()
+			if open && e != 0 && f.err == nil {
+				t.Fatalf("quiescence: a counter file is open but %d of stack counter %q is still unpersisted", e, shortName(c.Name()))
+			}
+			stackTotal += p[c.Name()] + e
+		}
+		if stackTotal != stackBegun {
+			t.Fatalf("quiescence: stack counter persisted+pending %d != %d increments (counters: %d)", stackTotal, stackBegun, len(sc.Counters()))
+		}
+		if stackBegun > 0 && len(sc.Counters()) != 1 {
+			t.Fatalf("increments from one call stack hit %d different stack counters", len(sc.Counters()))
+		}
 		var ps []string
 		for _, prog := range progs {
 			var s []string
@@ -323,4 +358,68 @@ func TestVerifC03Known(t *testing.T) {
 		t.Fatalf("use after unmap in Counter.add (fault at %#x)\n%s", adder.FaultAddr, adder.Stack)
 	}
 	t.Fatalf("adder panicked: %v\n%s", adder.Panic, adder.Stack)
+}
+
+// TestVerifC03KnownUnregistered replays, with a fixed schedule, the known
+// finding "use-after-unmap-unregistered": goroutine Y sets c.next but is paused
+// before linking c into the file's list; goroutine Z's Add on the same Counter
+// skips registration, looks the counter up and keeps a pointer; a rotation then
+// invalidates only the listed counters and unmaps; Y finishes; the next Add on
+// c uses the stale pointer. If the defect is repaired nothing is reported.
+func TestVerifC03KnownUnregistered(t *testing.T) {
+	defer vstats.Flush()
+	base := t.TempDir()
+	env := c03Setup(base, 2, true)
+	f := &file{}
+	env.files = []*file{f}
+	defer env.teardown(f)
+	now := time.Date(2024, 3, 4, 12, 0, 0, 0, time.UTC)
+	CounterTime = func() time.Time { return now }
+	f.rotate1()
+	c := &Counter{name: "c0", file: f}
+	ctl := vhook.New()
+	y := ctl.Go("Y", func() { c.Add(1) })
+	z := ctl.Go("Z", func() { c.Add(1) })
+	rotator := ctl.Go("rotator", func() { now = now.Add(8 * 24 * time.Hour); f.rotate1() })
+	late := ctl.Go("late", func() { c.Add(1) })
+	ctl.Install()
+	defer vhook.Uninstall()
+	listed := func() bool {
+		if head := f.counters.Load(); head != nil {
+			for p := head; p != nil && p != &f.end; p = p.next.Load() {
+				if p == c {
+					return true
+				}
+			}
+		}
+		return false
+	}
+	for i := 0; i < 1000 && !y.Done && c.next.Load() == nil; i++ {
+		ctl.Step(y)
+	}
+	if y.Done || listed() {
+		t.Fatalf("harness: Y was not stopped between setting c.next and linking c")
+	}
+	if !ctl.RunAlone(z, 100000) {
+		return // Z waits for the registration to finish: repaired by waiting
+	}
+	if !ctl.RunAlone(rotator, 100000) {
+		t.Fatalf("rotator did not finish")
+	}
+	ctl.RunAlone(y, 100000)
+	ctl.RunAlone(late, 100000)
+	vhook.Uninstall()
+	vstats.Case("fixed schedule: Y sets c.next; Z adds (pointer acquired while unlisted); rotator completes; Y links; late Add", true, "known-replay-unregistered")
+	for _, th := range []*vhook.Thread{y, z, rotator, late} {
+		if th.Panic == nil {
+			continue
+		}
+		if th.IsFault && env.inClosed(th.FaultAddr) {
+			if vstats.Known("use-after-unmap-unregistered") {
+				return
+			}
+			t.Fatalf("use after unmap through an unlisted counter (fault at %#x)\n%s", th.FaultAddr, th.Stack)
+		}
+		t.Fatalf("%s panicked: %v\n%s", th.Name, th.Panic, th.Stack)
+	}
 }
